@@ -333,6 +333,8 @@ func (vc *VC) card(keySort, set string) string {
 		vc.assert(fmt.Sprintf("(forall ((s %s) (k %s)) (! (= (%s (store s k false)) (- (%s s) (ite (select s k) 1 0))) :pattern ((%s (store s k false)))))", setSort, keySort, f, f, f))
 		vc.assert(fmt.Sprintf("(forall ((s %s) (k %s)) (! (=> (select s k) (> (%s s) 0)) :pattern ((select s k) (%s s))))", setSort, keySort, f, f))
 		vc.assert(fmt.Sprintf("(forall ((s %s)) (! (=> (> (%s s) 0) (select s (%s s))) :pattern ((%s s))))", setSort, f, w, f))
+		// a singleton has one element
+		vc.assert(fmt.Sprintf("(forall ((s %s) (a %s) (b %s)) (! (=> (and (= (%s s) 1) (select s a) (select s b)) (= a b)) :pattern ((%s s) (select s a) (select s b))))", setSort, keySort, keySort, f, f))
 	}
 	return app(f, set)
 }
